@@ -113,6 +113,24 @@ var scenarios = [][]string{
 		"c adv 1",
 		"c q wire u2 f t -",
 	},
+	{ // additional-section records decay with the entry on every route; `expire` above 24 h
+		"c new 0 f 0 604800",
+		"c q msg n0 f t n0=p:p300:-:-:-:p300,p600",
+		"c adv 200",
+		"c q msg n0 f t -",
+		"c q dwire n0 f t -",
+		"c q wire n0 f f -",
+		"c adv 99",
+		"c q dwire n0 f f -",
+		"c cutrec 1 s200000/200000,g200000/200000/4000000,p200000,g200000/200000/4000000 -",
+		"c q msg u1 f t -",
+		"c adv 86399",
+		"c q dwire u1 f t -",
+		"c get u1",
+		"c adv 1",
+		"c q wire u1 f t -",
+		"c q msg u1 f t -",
+	},
 	{ // the real prefetch trigger: a hit inside the window claims a refresh; newer state wins
 		"c new 0 f 50",
 		"c q msg n0 f t n0=p:p20:-:600:-",
@@ -407,6 +425,7 @@ type genHist struct {
 	cuts     []int
 	proofs   []int
 	pf       int // prefetch threshold of the case (0 = off)
+	expire   int64
 }
 
 // pickD: an RRSIG window.  Outside aligned cases a signature must not be the
@@ -526,6 +545,15 @@ func (g *genHist) genSpec(name string, kind byte, tgt int, ecs bool) string {
 	for _, t := range nsPlain {
 		add(t)
 	}
+	// real additional-section records (target addresses, glue) next to some answers
+	var extra []string
+	if (kind == 'p' || kind == 'c') && r.Chance(1, 5) {
+		for q := 0; q < 1+r.Intn(2); q++ {
+			t := ttlVar()
+			add(t)
+			extra = append(extra, item('p', t))
+		}
+	}
 	scoped := ecs && kind != 'c' && r.Chance(2, 3)
 	lim := minOther
 	if scoped && g.cap > 0 && g.cap < lim {
@@ -578,7 +606,11 @@ func (g *genHist) genSpec(name string, kind byte, tgt int, ecs bool) string {
 			k = fmt.Sprintf("cp%d", tgt-100)
 		}
 	}
-	return fmt.Sprintf("%s=%s:%s:%s:%s:%s", name, k, joinOrDash(ans), joinOrDash(ns), lease, sc)
+	out := fmt.Sprintf("%s=%s:%s:%s:%s:%s", name, k, joinOrDash(ans), joinOrDash(ns), lease, sc)
+	if len(extra) > 0 {
+		out += ":" + strings.Join(extra, ",")
+	}
+	return out
 }
 
 func (g *genHist) pickKind(idx int) (byte, int) {
@@ -616,7 +648,13 @@ func genHistCase(r *vlib.R, emit func(string)) int {
 	if !g.aligned && r.Chance(3, 10) {
 		g.pf = vlib.Pick(r, []int{25, 50, 75})
 	}
-	if g.pf > 0 {
+	g.expire = histExpire
+	if r.Chance(3, 20) {
+		g.expire = histExpireBig // `expire` above the 24 h cap
+	}
+	if g.expire != histExpire {
+		emit(fmt.Sprintf("c new %d %s %d %d", g.cap, vlib.B(g.aligned), g.pf, g.expire))
+	} else if g.pf > 0 {
 		emit(fmt.Sprintf("c new %d %s %d", g.cap, vlib.B(g.aligned), g.pf))
 	} else {
 		emit(fmt.Sprintf("c new %d %s", g.cap, vlib.B(g.aligned)))
@@ -934,7 +972,7 @@ func (g *genHist) genProof(k int) string {
 	lease := "-"
 	minSOA := min64(min64(soaT, soaM), min64(g1T, g1O))
 	minAll := min64(minSOA, min64(nsecT, min64(g2T, g2O)))
-	minSOA, minAll = min64(minSOA, histExpire), min64(minAll, histExpire)
+	minSOA, minAll = min64(minSOA, min64(g.expire, 10800)), min64(minAll, min64(g.expire, 10800))
 	if r.Chance(1, 4) {
 		l := vlib.Pick(r, []int64{0, 1, 2, 3, 4, 6, 20, 60, 9000})
 		lease = fmt.Sprint(l)
@@ -981,8 +1019,11 @@ func (g *genHist) genProof(k int) string {
 func (g *genHist) genCut(k int) string {
 	r := g.r
 	base := vlib.Pick(r, []int64{2, 3, 5, 6, 10, 30, 60, 300, 3600, 10000})
+	if g.expire > 86400 && r.Chance(2, 3) {
+		base = vlib.Pick(r, []int64{90000, 200000, 600000}) // every component beyond 24 h
+	}
 	v := func() int64 {
-		if r.Chance(1, 4) {
+		if r.Chance(1, 4) && base < 90000 {
 			return vlib.Pick(r, []int64{1, 2, 4, 5, 6, 30, 300, 100000})
 		}
 		return base
@@ -991,7 +1032,7 @@ func (g *genHist) genCut(k int) string {
 	g1T, g1O, g2T, g2O := v(), v(), v(), v()
 	lease := "-"
 	minOther := min64(min64(min64(soaT, soaM), min64(nsecT, g1T)), min64(min64(g1O, g2T), g2O))
-	minOther = min64(minOther, histExpire)
+	minOther = min64(minOther, min64(g.expire, 86400))
 	if r.Chance(1, 3) {
 		l := vlib.Pick(r, []int64{0, 1, 2, 3, 4, 6, 60, 9000})
 		lease = fmt.Sprint(l)
